@@ -403,7 +403,13 @@ fn f64len(a: Pos, b: Pos) -> f64 {
 /// The C16 property, checked on the implementation.  Returns Some(true) when
 /// the cut/extension branch was exercised.
 pub fn oracle(c: &CurveCase, cur: &Result<Curve, String>, out: &mut Out) -> Option<bool> {
-    let d = describe(c);
+    oracle_in(c, cur, out, "")
+}
+
+/// the same, for a curve computed in some context (e.g. with buffers used before):
+/// `ctx` is prepended to the description of the failing input
+pub fn oracle_in(c: &CurveCase, cur: &Result<Curve, String>, out: &mut Out, ctx: &str) -> Option<bool> {
+    let d = format!("{}{}", ctx, describe(c));
     // quantifier: finite coordinates; IEEE statements narrowed to |coord| <= 2^60
     if has_nan_inf(&c.pts) || max_abs(&c.pts) > 1.0e18 {
         out.count("oracle:outside-quantifier(coords)");
@@ -605,6 +611,85 @@ pub fn all_layouts(n: usize) -> Vec<Vec<(u8, i32)>> {
     v
 }
 
+/// A sequence of curves computed one after the other through ONE CurveBuffers
+/// (what the decoder does for a whole map): correspondence entry `c16s`, and
+/// the full C16 oracle on every curve of the sequence.
+pub fn run_sequence(seq: &[CurveCase], out: &mut Out) {
+    let mut line = Line::entry("c16s");
+    line.u(seq.len() as u64);
+    for c in seq {
+        line.u(c.mode as u64);
+        enc_pts(&mut line, &c.pts);
+        enc_len(&mut line, c.len);
+    }
+    let mut res = Line::new();
+    let mut bufs = CurveBuffers::default();
+    let mut ctx = String::from("after, with the same CurveBuffers: ");
+    let mut nontrivial = false;
+    for (k, c) in seq.iter().enumerate() {
+        let pts = to_points(&c.pts);
+        let mode = mode_of(c.mode);
+        let len = c.len;
+        let b = &mut bufs;
+        let cur = guarded(move || Curve::new(mode, &pts, len, b));
+        match &cur {
+            Ok(cv) => {
+                res.u(0);
+                dump_curve(&mut res, cv.path(), cv.lengths());
+                nontrivial |= k > 0 && cv.path().len() >= 3;
+            }
+            Err(_) => {
+                res.u(1);
+            }
+        }
+        out.count("sequence:curves");
+        let context = if k == 0 { String::new() } else { format!("{}| then ", ctx) };
+        oracle_in(c, &cur, out, &context);
+        if cur.is_err() {
+            break;
+        }
+        ctx += &format!("[{}] ", describe(c));
+    }
+    out.count(&format!("sequence:length:{}", seq.len()));
+    let desc = format!("sequence through one CurveBuffers: {}", seq.iter().map(describe).collect::<Vec<_>>().join(" ; "));
+    out.case(line.0, res.0, desc, nontrivial);
+}
+
+fn ulps(x: f32, k: i32) -> f32 {
+    f32::from_bits((x.to_bits() as i64 + k as i64) as u32)
+}
+
+/// paths whose last two control points are DISTINCT but only a few ulps apart
+/// (magnitude < 2: closer than f32::EPSILON), next to exactly identical ones
+pub fn near_duplicate_ends(r: &mut Rng, all: bool) -> Vec<Vec<Cp>> {
+    let mut v = vec![];
+    let bases = [0.5f32, 1.0, 1.5, 0.25, 0.75, 0.1, 1.9990234, -0.5, -1.25];
+    for (bi, &b) in bases.iter().enumerate() {
+        for (di, &(dx, dy)) in [(1, 0), (0, 1), (-1, 0), (2, -1), (3, 3), (0, 0)].iter().enumerate() {
+            if !all && (bi + di) % 3 != 0 && !(bi == 0 && di == 0) {
+                continue;
+            }
+            let y0 = if bi % 2 == 0 { 0.0f32 } else { 0.375 };
+            let last = Cp { x: ulps(b, dx), y: if dy == 0 { y0 } else { ulps(if y0 == 0.0 { 0.625 } else { y0 }, dy) }, ty: 0, deg: 0 };
+            let before = Cp { x: b, y: if dy == 0 { y0 } else if y0 == 0.0 { 0.625 } else { y0 }, ty: 0, deg: 0 };
+            for ty in [3u8, 2, 1, 4] {
+                // two points only, and with a leading far point
+                let mut a = vec![before, last];
+                a[0].ty = ty;
+                v.push(a);
+                let lead = Cp { x: r.range(-3, 3) as f32 * 0.5, y: r.range(1, 4) as f32 * 0.5, ty, deg: 0 };
+                let mut c3 = vec![lead, before, last];
+                if ty == 4 {
+                    // a three-point perfect curve would be an arc: make the tail its own linear segment
+                    c3[1].ty = 3;
+                }
+                v.push(c3);
+            }
+        }
+    }
+    v
+}
+
 pub fn generate(tier: &str, seed: u64, out: &mut Out) {
     let mut r = Rng::new(seed ^ 0xC16);
     let thorough = tier == "thorough";
@@ -767,6 +852,80 @@ pub fn generate(tier: &str, seed: u64, out: &mut Out) {
         }
     }
 
+    // ---- last two points distinct but a few ulps apart (closer than f32::EPSILON):
+    // only *identical* end points are an exception to "distance == L"
+    {
+        let shapes = near_duplicate_ends(&mut r, thorough);
+        for (i, pts) in shapes.iter().enumerate() {
+            let natural = impl_curve(&CurveCase { mode: 1, pts: pts.clone(), len: None }).map_or(0.0, |c| c.dist());
+            let lens = [None, Some(natural * 1.5 + 10.0), Some(natural + 1e-3), Some(1e9), Some(natural * 0.5), Some(natural + 1e-7)];
+            for (j, len) in lens.iter().enumerate() {
+                if !thorough && j >= 3 && (i + j) % 2 == 0 {
+                    continue;
+                }
+                out.count("source:near-duplicate-end");
+                run_case(&CurveCase { mode: ((i + j) % 4) as u8, pts: pts.clone(), len: *len }, "near-duplicate-end", true, out);
+            }
+        }
+    }
+
+    // ---- sequences of curves through ONE CurveBuffers (as the decoder does per map):
+    // osu!-mode Catmull paths first, then every type / mode
+    {
+        let z = |x: f32, y: f32, ty: u8| Cp { x, y, ty, deg: 0 };
+        let catmull = vec![z(0.0, 0.0, 1), z(40.0, 30.0, 0), z(80.0, -20.0, 0), z(120.0, 10.0, 0)];
+        let line = vec![z(0.0, 0.0, 3), z(30.0, 40.0, 0)];
+        let bez = vec![z(0.0, 0.0, 2), z(50.0, 50.0, 0), z(100.0, 0.0, 0)];
+        let arc = vec![z(0.0, 0.0, 4), z(50.0, 50.0, 0), z(100.0, 0.0, 0)];
+        // corpus: a Catmull curve in osu! mode, then plain curves without / with a requested length
+        run_sequence(
+            &[
+                CurveCase { mode: 0, pts: catmull.clone(), len: None },
+                CurveCase { mode: 0, pts: line.clone(), len: None },
+                CurveCase { mode: 0, pts: line.clone(), len: Some(80.0) },
+                CurveCase { mode: 0, pts: bez.clone(), len: Some(30.0) },
+                CurveCase { mode: 1, pts: arc.clone(), len: None },
+                CurveCase { mode: 0, pts: vec![], len: None },
+                CurveCase { mode: 0, pts: catmull.clone(), len: Some(60.0) },
+                CurveCase { mode: 0, pts: line.clone(), len: None },
+            ],
+            out,
+        );
+        let nseq = if thorough { 1500 } else { 220 };
+        for i in 0..nseq {
+            let hi = if r.chance(1, 4) { 9 } else { 5 };
+            let n = r.range(2, hi) as usize;
+            let mut seq = vec![];
+            for k in 0..n {
+                // the first curve: usually an osu!-mode Catmull path
+                let want_catmull = (k == 0 && i % 4 != 3) || r.chance(1, 4);
+                let pts = loop {
+                    let p = if want_catmull {
+                        let np = r.range(2, 6) as usize;
+                        let kind = *r.pick(&[Coord::Playfield, Coord::Playfield, Coord::Fractional, Coord::SmallInt]);
+                        let shape = *r.pick(&[Shape::Free, Shape::Free, Shape::Duplicates]);
+                        let pos = positions(&mut r, np, kind, shape);
+                        let mut lay = vec![(0u8, 0i32); np];
+                        lay[0] = (1, 0);
+                        make(&pos, &lay)
+                    } else {
+                        random_points(&mut r, 7)
+                    };
+                    if max_abs(&p) <= 5000.0 && !too_expensive(&p, 25_000) {
+                        break p;
+                    }
+                };
+                let mode = if want_catmull && r.chance(3, 4) { 0 } else { r.below(4) as u8 };
+                let natural = impl_curve(&CurveCase { mode: 1, pts: pts.clone(), len: None }).map_or(0.0, |c| c.dist());
+                let classes = length_classes(natural);
+                let len = if r.chance(1, 2) { None } else { classes[r.below(classes.len())].1 };
+                seq.push(CurveCase { mode, pts, len });
+            }
+            out.count("source:sequence");
+            run_sequence(&seq, out);
+        }
+    }
+
     // ---- random control-point lists x length classes x modes
     let n_lists = if thorough { 4000 } else { 600 };
     for i in 0..n_lists {
@@ -783,6 +942,23 @@ pub fn generate(tier: &str, seed: u64, out: &mut Out) {
             let mode = if j == 0 { (i % 4) as u8 } else { r.below(4) as u8 };
             out.count("source:random");
             run_case(&CurveCase { mode, pts: pts.clone(), len }, tag, true, out);
+        }
+        // requested length EXACTLY equal (bit for bit) to the cumulative length of a vertex of the
+        // natural curve: duplicated vertices (repeated anchors, Catmull inner vertices) give runs of
+        // equal cumulative lengths, and the cut must still be the natural prefix ending at that vertex
+        for mode in [(i % 4) as u8, ((i + 1) % 4) as u8] {
+            if let Ok(nat) = impl_curve(&CurveCase { mode, pts: pts.clone(), len: None }) {
+                let ls = nat.lengths().to_vec();
+                if ls.len() >= 3 {
+                    for _ in 0..2 {
+                        let k = 1 + r.below(ls.len() - 1);
+                        if ls[k].is_finite() && ls[k] > 0.0 {
+                            out.count("source:at-vertex-length");
+                            run_case(&CurveCase { mode, pts: pts.clone(), len: Some(ls[k]) }, "at-vertex", true, out);
+                        }
+                    }
+                }
+            }
         }
         // a random fraction of the natural length, osu! mode (the D11 neighbourhood)
         if has_type(&pts, 1) {
